@@ -221,12 +221,14 @@ RetVerdicts(R, c, lineNo, tag) ==
   IN SelectSeq(checks, LAMBDA x : x.bad)
 
 \* runs of the same case under different visit orders must agree (C09)
+\* everything a caller can read from an issue (message and parameters included) is compared between the runs
+Proj9(s) == [i \in DOMAIN s |-> [path |-> s[i].path, code |-> s[i].code, ty |-> s[i].ty, msg |-> s[i].msg, prm |-> s[i].prm]]
 GroupVerdicts(R, lineNo) ==
   IF /\ prev.grp = call.grp /\ call.pair = prev.pair /\ call.pair \in {"", "c04", "c17s"}
-     /\ (BagOf(Proj(R.issues)) # BagOf(Proj(prev.issues)) \/ R.dest # prev.dest \/ R.nilres # prev.nilres)
+     /\ (BagOf(Proj9(R.issues)) # BagOf(Proj9(prev.issues)) \/ R.dest # prev.dest \/ R.nilres # prev.nilres)
      /\ \A k1 \in DOMAIN R.issues : ~IsPTIssue(R.issues[k1])
      /\ \A k2 \in DOMAIN prev.issues : ~IsPTIssue(prev.issues[k2])
-  THEN <<V("C09", "order-dependent", call.id, lineNo, [a |-> Proj(prev.issues), b |-> Proj(R.issues)])>>
+  THEN <<V("C09", "order-dependent", call.id, lineNo, [a |-> Proj9(prev.issues), b |-> Proj9(R.issues)])>>
   ELSE <<>>
 
 \* C14: the renderings of one record through different front ends agree with each other: same destination,
